@@ -1,6 +1,6 @@
 # C05 — end of input is always detected (empty input, multiples of the window, unreadable streams); a truncated input
 # yields exactly the values wholly contained in the prefix, then End.
-import common, cborgen
+import common, cborgen, schema, histgen, refcbor
 THEOREMS = ["C05_refine", "C05_init", "C05_exhausted", "C05_prefix", "C05_suffix", "C05_truncated_file", "C05_nonvacuous"]
 EXTRA_PROPERTY_FILES = ("Properties_format",)   # obligations over the regenerated Gen_format.v (translator/format.py)
 W = 65535
@@ -97,17 +97,80 @@ def gen_cases(tier, rng):
         cases += truncation_cases(tier, rng, "t", 40, 400)
     return cases
 
+def file_cut_cases(ctx, tier, rng):
+    """C05_truncated_file against the real reader: exporter-produced files (one output each, small and multi-window), cut at the end of
+    the header +-1, at every block end +-1, at window multiples +-1 and at random offsets; 'F cut 0 n' runs the application's read loop
+    (CdnsReader + read_block until eof / exception) on the first n bytes.  Ground truth from an independent parse of the FULL file:
+    the blocks wholly inside the prefix are dumped exactly as for the full file, then 'throw End' - nothing else."""
+    sch = schema.load(ctx["mdl"])
+    cases = []
+    for i in range(6 if tier == "quick" else 60):
+        h = histgen.gen_history(sch, rng, nops=rng.choice([6, 15, 30]), rotations=False, maxi=rng.choice([1, 2, 3]))
+        if i % 3 == 0:
+            for o in h["ops"]:
+                if o[0] == "mm" and o[2][6] is not None: o[2][6] = bytes([65 + i]) * rng.choice([40000, 70000])
+        h["ops"] = [o for o in h["ops"] if o[0] in ("qr", "aec", "mm")] + [("wb",)]
+        base = histgen.to_script(sch, h, read_back=False)
+        impl, _, _ = common.run_both([("g", base + ["F out 0"])], ctx["impl"]["drv"], ctx["mdl"], batch=1, impl_only=True)
+        il = impl.get("g", [])
+        outs = [l for l in il if l.startswith("out ") and l[4:] != "-"]
+        if not outs: continue
+        data = bytes.fromhex(outs[-1][4:])
+        k = il.index(outs[-1])
+        full = il[k + 1:]                                   # dump of the full file: pre, (blk .. endblk)*, eof
+        if not full or not full[0].startswith("pre ") or full[-1] != "eof": continue
+        # independent block boundaries: 0x83, text, preamble item, 0x9f, items..., 0xff
+        try:
+            pos = 1
+            _, pos = refcbor.parse_item(data, pos); _, pos = refcbor.parse_item(data, pos)
+            hdr_end = pos + 1
+            ends, pos = [], hdr_end
+            while data[pos] != 0xff:
+                _, pos = refcbor.parse_item(data, pos); ends.append(pos)
+        except Exception: continue
+        blocks, cur = [], None
+        for l in full[1:-1]:
+            if l.startswith("blk "): cur = [l]
+            elif cur is not None:
+                cur.append(l)
+                if l == "endblk": blocks.append(cur); cur = None
+        if len(blocks) != len(ends): continue
+        cuts = set([0, 1, hdr_end - 1, hdr_end, hdr_end + 1, len(data) - 1])
+        for e in ends:
+            for d in (-1, 0, 1): cuts.add(e + d)
+        for w in range(W, len(data), W):
+            for d in (-1, 0, 1): cuts.add(w + d)
+        while len(cuts) < (25 if tier == "quick" else 120): cuts.add(rng.randrange(0, len(data)))
+        for c in sorted(x for x in cuts if 0 <= x < len(data)):
+            exp = []
+            if c >= hdr_end:
+                exp.append(full[0])
+                for e, b in zip(ends, blocks):
+                    if e <= c: exp += b
+            exp.append("throw End")
+            cases.append({"id": "f%d_%d" % (i, c), "script": base + ["F cut 0 %d" % c], "expect": [None] * (k + 1) + exp,
+                          "what": "the first %d of %d bytes of an exporter output (header ends at %d, blocks end at %s): the read loop must return the %d blocks wholly contained and then report end of input"
+                                  % (c, len(data), hdr_end, ends[:6], sum(1 for e in ends if e <= c and c >= hdr_end)),
+                          "meta": {"kind": "file-cut", "cut": c, "len": len(data)}})
+    return cases
+
 def to_script(c): return common.case_script(c)
 
 def run(ctx):
     rep, tier, rng = ctx["report"], ctx["tier"], ctx["rng"]
     cases = gen_cases(tier, rng)
     diffs, fails = common.run_expect(ctx, cases, batch=12)
+    fcases = file_cut_cases(ctx, tier, rng)
+    d2, f2 = common.run_expect(ctx, fcases, batch=6, canon=histgen.canon_lines)
+    diffs, fails, cases = diffs + d2, fails + f2, cases + fcases
     # truncation: results of the commands inside the cut item must be their full-input result or End (prefix theorem)
     common.summarize_cov(rep, cases,
         "(a) inputs of exactly 0, 1, 2, 65534, 65535, 65536, 131069..131071, 196605 bytes through std::istringstream / std::ifstream, plus unreadable "
         "streams (never-opened ifstream, ifstream on a missing path, ifstream on a directory, a stream that fails with an I/O error after n bytes), consumed completely, then each of the 11 public read operations three times: all must report End and the input stays "
         "exhausted; (b) streams of random well-formed items (small, and 1-2 windows long) cut at every window multiple +-2, at item ends +-1 and at "
-        "random offsets: the values wholly inside the prefix are returned as in the full stream, the next read reports End. "
+        "random offsets: the values wholly inside the prefix are returned as in the full stream, the next read reports End; (c) C05_truncated_file "
+        "against the real reader: exporter-produced files (incl. multi-window ones) cut at the header end +-1, every block end +-1, window multiples "
+        "+-1 and random offsets, read with CdnsReader's read_block loop ('F cut'): exactly the blocks wholly contained (block ends from an independent "
+        "parse of the full file), dumped as for the full file, then the end-of-input error. "
         "distinct = distinct scripts; expectations from the generator's ground truth", diffs, fails)
     return {"diffs": diffs, "fails": fails, "to_script": to_script}
